@@ -36,13 +36,34 @@ def _call(f, H):
 
 
 def count_preserving_edit_hg(rng, H):
-    """remove one edge and add a different one of another size (same number of nodes and edges), or move a node"""
+    """an edit that keeps the numbers of nodes and edges — and, two times out of three, every node and edge ID as well:
+    (a) remove one edge and add a different one (new automatic ID); (b) the same under the SAME edge ID; (c) move one node
+    from an edge into another edge (membership-only change: no ID, no count changes)"""
     edges = list(H.edges)
     nodes = list(H.nodes)
     if not edges or len(nodes) < 2:
         return False
+    kind = rng.choice("abc")
+    if kind == "c" and len(edges) >= 2:
+        for _ in range(20):
+            e, f = rng.sample(edges, 2)
+            movable = [n for n in H.edges.members(e) if n not in H.edges.members(f)]
+            if movable and len(H.edges.members(e)) >= 2:
+                n = rng.choice(movable)
+                H.remove_node_from_edge(e, n, remove_empty=False)
+                H.add_node_to_edge(f, n)
+                return True
     e = rng.choice(edges)
     old = set(H.edges.members(e))
+    if kind == "b":
+        for _ in range(20):
+            new = set(rng.sample(nodes, rng.randint(1, min(4, len(nodes)))))
+            if new != old:
+                attrs = dict(H.edges[e])
+                H.remove_edge(e)
+                H.add_edge(new, idx=e, **attrs)
+                return len(H.nodes) == len(nodes)
+        return False
     for _ in range(20):
         new = set(rng.sample(nodes, rng.randint(1, min(4, len(nodes)))))
         if new != old:
